@@ -329,6 +329,68 @@ def run(ck, w):
             ck.fail(o, b.root, m, m, "%s:%d" % (b.file, b.lo))
     else:
         ck.ok(o, "%d construction(s)" % n, instances=n)
+    _is_valid_language(ck, w)
+
+
+def _is_valid_language(ck, w):
+    """C11.3b: Apath::is_valid rejects everything but '/'-rooted paths without an empty, '.', '..' component or
+    NUL. Two idioms are recognised, each with its complete set of tests; a missing test is a hole in the language.
+      A (per component): starts_with('/'), split('/') and for every piece is_empty, == ".", == "..", contains(NUL)
+      B (pattern scan):  starts_with('/'), ends_with('/') [len>1], contains("//"), contains("/./"), ends_with("/."),
+                         contains("/../"), ends_with("/.."), contains(NUL)"""
+    lib = w.lib
+    o = ck.ob("C11.3b", "Apath::is_valid tests the root slash and, for every component, emptiness, '.', '..' and NUL (complete set for the idiom used)")
+    b = lib.bodies.get("apath::Apath::is_valid")
+    if b is None:
+        ck.fail(o, "apath::Apath::is_valid", "anchor-missing", "is_valid not found")
+        return
+    fam = lib.family("apath::Apath::is_valid")
+    tests = set()
+    has_split = False
+    for fb in fam:
+        for e in fb.events:
+            if e.bb not in fb.live:
+                continue
+            m = re.search(r"<impl str>::(starts_with|ends_with|contains|split|is_empty|split_terminator|rsplit)$", e.name)
+            if m:
+                meth = m.group(1)
+                pat = None
+                if len(e.args) > 1:
+                    a = e.args[1]
+                    if a.get("k") == "const":
+                        pat = chr(int(a["int"])) if "int" in a else a.get("str")
+                    else:
+                        for x in flow.origins(fb, a):
+                            if x[0] == "const" and x[1] in ("str", "int"):
+                                pat = x[2] if x[1] == "str" else chr(int(x[2]))
+                if meth in ("split", "rsplit", "split_terminator"):
+                    if pat == "/":
+                        has_split = True
+                else:
+                    tests.add((meth, pat))
+            if e.callee == "std::cmp::PartialEq::eq" or e.callee == "std::cmp::PartialEq::ne":
+                for a in e.args:
+                    for x in flow.origins(fb, a):
+                        if x[0] == "const" and x[1] == "str":
+                            tests.add(("eq", x[2]))
+    NUL = chr(0)
+    need_a = {("starts_with", "/"), ("is_empty", None), ("eq", "."), ("eq", ".."), ("contains", NUL)}
+    need_b = {("starts_with", "/"), ("ends_with", "/"), ("contains", "//"), ("contains", "/./"), ("ends_with", "/."),
+              ("contains", "/../"), ("ends_with", "/.."), ("contains", NUL)}
+    miss_a = need_a - tests
+    miss_b = need_b - tests
+
+    def show(ms):
+        return sorted("%s(%r)" % (m, p) if p is not None else m for m, p in ms)
+    if has_split and not miss_a:
+        ck.ok(o, "per-component idiom: %s" % show(need_a), instances=len(need_a))
+    elif not has_split and not miss_b:
+        ck.ok(o, "pattern-scan idiom: %s" % show(need_b), instances=len(need_b))
+    else:
+        miss = miss_a if has_split else miss_b
+        for mth, pat in sorted(miss, key=str):
+            ck.fail(o, b.name, "is_valid lacks the test %s" % ("%s(%r)" % (mth, pat) if pat is not None else mth),
+                    "%s idiom: missing %s; tests present: %s" % ("per-component" if has_split else "pattern-scan", show(miss), show(tests)))
 
 
 def run_thorough(ck, w):
